@@ -972,6 +972,9 @@ class ESME:
                     await self.connect()  # Will raise error if not successful
                     self.retry_timer.reset()
                     self._bound.set()  # Tell _send_data it can proceed
+                    if self._is_shutting_down:
+                        # stop() was called while the connection was being set up, unbind and leave
+                        await self._disconnect()
                     # Wait until any task fails
                     all_tasks: Set[Task] = {
                         asyncio.create_task(self._receive_data(), name='Receiver'),
@@ -1007,6 +1010,9 @@ class ESME:
 
                 self._bound.clear()
                 self._session_state = SmppSessionState.CLOSED
+                if self._writer is not None:
+                    # Whatever ended this cycle, its connection must not be left open
+                    self._writer.close()
                 if conn_error:
                     self._logger.error(error_message, exception=repr(conn_error))
                 if self._is_shutting_down:
